@@ -140,19 +140,22 @@ EndsWith(s, suf)   == Len(s) >= Len(suf) /\ SubSeq(s, Len(s) - Len(suf) + 1, Len
 
 \* "names with a leading underscore that are not dunders are private, everything else public"
 IsDunder(n) == Len(n) > 4 /\ StartsWith(n, <<"_", "_">>) /\ EndsWith(n, <<"_", "_">>)
-DefaultPrivacy(nm) == LET n == LastComponent(nm) IN
-                        IF StartsWith(n, <<"_">>) /\ ~IsDunder(n) THEN "PRIVATE" ELSE "PUBLIC"
+\* n is the object's OWN name.  It is the last component of the qualified name except for the few objects whose
+\* name has a dot in it (the builder calls the setter of property _v "_v.setter": qualified name a.c._v.setter).
+DefaultPrivacyOwn(n) == IF StartsWith(n, <<"_">>) /\ ~IsDunder(n) THEN "PRIVATE" ELSE "PUBLIC"
+DefaultPrivacy(nm) == DefaultPrivacyOwn(LastComponent(nm))
 
 MaxOf(S) == CHOOSE x \in S : \A y \in S : y <= x
 
 \* "a rule whose pattern equals the qualified name overrides any pattern rule,
 \*  and among rules of the same sort the one given last wins"
-PrivacyOf(nm, rules) ==
+PrivacyOfN(nm, own, rules) ==                    \* nm: qualified name, own: the object's own name
   LET exact == {i \in 1..Len(rules) : rules[i].pat = nm}
       patt  == {i \in 1..Len(rules) : QnMatch(nm, rules[i].pat)}
   IN IF exact # {} THEN rules[MaxOf(exact)].lv
      ELSE IF patt # {} THEN rules[MaxOf(patt)].lv
-     ELSE DefaultPrivacy(nm)
+     ELSE DefaultPrivacyOwn(own)
+PrivacyOf(nm, rules) == PrivacyOfN(nm, LastComponent(nm), rules)
 
 \* "If a module/package/class is hidden, then all its members are hidden as well":
 \* chain = the full names of the object and of all its containers
@@ -163,8 +166,7 @@ VisibleRef(chain, rules) == \A i \in 1..Len(chain) : PrivacyOf(chain[i], rules) 
 (* (model.py 1134-1151): default, then the reversed list scanned for an    *)
 (* equal string, then the reversed list scanned with qnmatch.              *)
 (***************************************************************************)
-ImplDefault(nm) ==                                                     \* 1134-1137, on ob.name
-  LET n == LastComponent(nm) IN
+ImplDefaultOwn(n) ==                                                   \* 1134-1137, on ob.name
     IF StartsWith(n, <<"_">>) /\ ~(StartsWith(n, <<"_", "_">>) /\ EndsWith(n, <<"_", "_">>))
     THEN "PRIVATE" ELSE "PUBLIC"
 
@@ -174,8 +176,9 @@ ScanExact(nm, rules, i) == IF i = 0 THEN "none"                        \* 1142-1
 RECURSIVE ScanMatch(_, _, _)
 ScanMatch(nm, rules, i) == IF i = 0 THEN "none"                        \* 1147-1151
                            ELSE IF ImplMatch(nm, rules[i].pat) THEN rules[i].lv ELSE ScanMatch(nm, rules, i - 1)
-ImplPrivacy(nm, rules) ==
+ImplPrivacyN(nm, own, rules) ==
   LET e == ScanExact(nm, rules, Len(rules)) IN
     IF e # "none" THEN e
-    ELSE LET m == ScanMatch(nm, rules, Len(rules)) IN IF m # "none" THEN m ELSE ImplDefault(nm)
+    ELSE LET m == ScanMatch(nm, rules, Len(rules)) IN IF m # "none" THEN m ELSE ImplDefaultOwn(own)
+ImplPrivacy(nm, rules) == ImplPrivacyN(nm, LastComponent(nm), rules)
 =============================================================================
